@@ -443,7 +443,9 @@ func (r *rec) positions(corpus []string, rawEp bool) {
 	}
 	for !r.full() {
 		if r.obs["status"] && r.rng.Intn(2) == 0 {
-			switch r.rng.Intn(5) {
+			switch r.rng.Intn(6) {
+			case 5:
+				r.load(gen.EpInterpose(r.rng))
 			case 0:
 				r.load(gen.BlockStress(r.rng))
 			case 1:
